@@ -129,7 +129,7 @@ def run(cx):
     adi = nm.get('ADI')
     if adi and blk:
         ad = assign_of(adi)
-        ok = len(ad) == 2 and not any(fn.in_body_of(s, blk[0], 'body') for s in ad)
+        ok = len(ad) in (1, 2) and not any(fn.in_body_of(s, blk[0], "body") for s in ad)   # (two statements under one name are one in canonical form)
         fn.ob('REACH', 'one construction of the event mask is shared by the gate and the replay path', ok, ad[0] if ad else fn.ast, key='shared-mask')
     # returned edges are the edges used for binning; edges only re-cast
     for r in fn.stmts(ast.Return):
